@@ -4,7 +4,7 @@ import FimVerif.Proofs.Lemmas.C10Dec
 /-! Driver for C10: runs `Validate.validate` / `Validate.connect` on request lines.
 
 `["validate", overrides|null, exp, [[ty,[props]]..], [[ty, site|null, [props], owner|null, [iface..]]..]]`
-  iface = `["d", kind]` | `["p", null | [[kind, owner|null]..]]`
+  iface = `["d", name, kind]` | `["p", name, null | [[kind, owner|null]..]]`
   overrides = `{"svc": {ty: [min,num,sites,inst,[req],[forb],[iftypes]]}, "node": {ty: [[req],[forb]]}}`
   reply `[status, [site|null ..], specOK, specFull]`, status = "ok" | error kind; the two booleans are
   `decide (SpecOK cfg t)` and `decide (SpecFull cfg t)` (the declarative specifications of Proofs/Lemmas/C10.lean)
@@ -22,11 +22,12 @@ def parseNIface (j : Json) : Option NIface := do
   pure ⟨← k.getStr?.toOption, ← optStr o⟩
 
 def parseSIface (j : Json) : Option SIface := do
-  let [tag, x] ← arr? j | none
+  let [tag, nm, x] ← arr? j | none
   let t ← tag.getStr?.toOption
-  if t == "d" then pure (.direct (← x.getStr?.toOption))
-  else if x.isNull then pure (.port none)
-  else pure (.port (some (← (← arr? x).mapM parseNIface)))
+  let n ← nm.getStr?.toOption
+  if t == "d" then pure (.direct n (← x.getStr?.toOption))
+  else if x.isNull then pure (.port n none)
+  else pure (.port n (some (← (← arr? x).mapM parseNIface)))
 
 def parseSvc (j : Json) : Option Svc := do
   let [ty, site, props, owner, ifs] ← arr? j | none
